@@ -56,7 +56,7 @@ def gen_transactions(r, n, with_24=True):
         kind = r.choice(["plain", "query+answer", "query+noframe", "query+timeout", "query+error", "query+interrupted", "twice", "twice-single",
                          "twice-different", "twice+backward", "twice+noframe", "edt+ext", "edt+ext-other", "edt+plain", "edt+gap+ext",
                          "dev-query", "dev-twice", "event", "event-di", "unknown16", "unknown24", "stray-backward",
-                         "twice-lookalike24", "edt+24bit+ext"])
+                         "twice-lookalike24", "edt+24bit+ext", "twice+error"])
         if not with_24 and kind in ("dev-query", "dev-twice", "event", "event-di", "unknown24", "twice-lookalike24", "edt+24bit+ext"):
             kind = "plain"
         S, L = 0.05, 0.5
@@ -90,6 +90,8 @@ def gen_transactions(r, n, with_24=True):
             tx = [(g0, "F", 16, tf), (0.025, "F", 24, tf)]
         elif kind == "twice+backward":
             tx = [(g0, "F", 16, tf), (0.012, "B", 8, v)]
+        elif kind == "twice+error":
+            tx = [(g0, "F", 16, tf), (0.012, "E", 8, 0)]
         elif kind == "twice+noframe":
             tx = [(g0, "F", 16, tf), (0.03, "N", 0, 0)]
         elif kind == "edt+24bit+ext":
@@ -179,7 +181,7 @@ def tridonic_case(seed, part, i, res):
         reps = flatten(txs, t)
         all_reports += reps
         for k in tags:
-            if k.startswith("twice-") or k in ("twice+backward", "twice+noframe"):  # incl. twice-lookalike24
+            if k.startswith("twice-") or k in ("twice+backward", "twice+noframe", "twice+error"):  # incl. twice-lookalike24
                 res.hit("twice_failed_cases")
             if k in ("query+noframe", "query+timeout", "query+interrupted"):
                 res.hit("query_no_answer_cases")
@@ -237,6 +239,16 @@ def tridonic_case(seed, part, i, res):
             else:
                 rep = W.tridonic_report(W.TRI_OBSERVE, W.TRI_NO, 0, 0)
             w.at(tt, lambda rep=rep: dev.rx.append(rep) if dev.fd is not None else None)
+        # gateway chatter that is no bus traffic, in the quiet gaps: a status report other than 'framing error', an
+        # unsolicited reply to an initialisation command, a report of a mode the driver does not know - none of it is a
+        # frame, none of it may produce or disturb a report
+        for tq in segs:
+            if r.random() < 0.4:
+                noise = r.choice([W.tridonic_report(W.TRI_OBSERVE, W.TRI_STATUS, 0, 0, status=r.choice([1, 2, 4])),
+                                  bytes([W.TRI_INFO, 0, 0, 1, 7]) + bytes(59),
+                                  bytes([0x55, 0x73, 0, 0, 0x12, 0x34]) + bytes(58)])
+                w.at(tq + 0.05, lambda noise=noise: dev.rx.append(noise) if dev.fd is not None else None)
+                res.hit("gateway_chatter_injected")
         end = (all_reports[-1][0] if all_reports else 1.0) + 1.2
         if own:
             await asyncio.sleep(max(0.0, segs[0] - w.now - 0.0) if False else 0)
